@@ -541,7 +541,7 @@ def _grammar(ctx, kinds):
             pass
     from .interp import trace_paths
     for t in ts:
-        for seq in trace_paths(t.t['trace'], limit=20000):
+        for seq in trace_paths(t.t['trace'], limit=20000, keep=lambda e: e['k'] in ('switch', 'enter')):
             lab = None
             for e in seq:
                 if e['k'] == 'switch' and is_lin(e['value']) and e['value'].single() and e['value'].single()[0].endswith('.type'):
